@@ -44,13 +44,14 @@ type c12Call struct {
 }
 
 type c12Input struct {
-	Target string    `json:"target"` // the real endpoint: server | client
-	Suite  uint16    `json:"suite"`
-	Plan   string    `json:"plan"`           // ok | wrong-finished
-	Pos    int       `json:"pos"`            // handshake position (puppet steps done) where early arrivals are injected
-	Big    bool      `json:"big,omitempty"`  // more than 480 bytes may be pending (only streams where nothing follows delivered data)
-	Pipe   bool      `json:"pipe,omitempty"` // the transport reports a read on a closed stream as io.ErrClosedPipe (like net.Pipe), not net.ErrClosed
-	Calls  []c12Call `json:"calls"`
+	Target  string    `json:"target"` // the real endpoint: server | client
+	Suite   uint16    `json:"suite"`
+	Plan    string    `json:"plan"` // ok | wrong-finished | deadline (the peer falls silent after DlSteps steps and the endpoint's read deadline expires; afterwards the deadline is cleared and the peer carries on)
+	DlSteps int       `json:"dl_steps,omitempty"`
+	Pos     int       `json:"pos"`            // handshake position (puppet steps done) where early arrivals are injected
+	Big     bool      `json:"big,omitempty"`  // more than 480 bytes may be pending (only streams where nothing follows delivered data)
+	Pipe    bool      `json:"pipe,omitempty"` // the transport reports a read on a closed stream as io.ErrClosedPipe (like net.Pipe), not net.ErrClosed
+	Calls   []c12Call `json:"calls"`
 }
 
 type c12Obs struct {
@@ -126,6 +127,8 @@ type c12Sess struct {
 	inflight atomic.Bool
 	hung     bool
 	steps    []func()
+	allSteps []func()
+	dlFired  bool
 	hsRan    bool
 	closed   bool // Close was called on the target
 	early    []c12Call
@@ -210,6 +213,11 @@ func c12New(in c12Input) *c12Sess {
 		s.steps = append(s.steps,
 			func() { p.SendCCS() },
 			func() { p.SendFinished(fin) })
+	}
+	if in.Plan == "deadline" {
+		s.raw.In.Deadlines = true
+		s.allSteps = s.steps
+		s.steps = s.steps[:in.DlSteps]
 	}
 	return s
 }
@@ -305,6 +313,10 @@ func (s *c12Sess) call(c c12Call, idx int) c12Obs {
 	}
 	done := make(chan struct{})
 	drive := !s.hsRan && (c.Op == "handshake" || c.Op == "hsctx" || ((c.Op == "read" || c.Op == "write") && !s.closed))
+	arm := drive && s.in.Plan == "deadline" && !s.dlFired
+	if arm {
+		s.T.SetReadDeadline(time.Now().Add(60 * time.Millisecond))
+	}
 	s.inflight.Store(true)
 	go func() {
 		defer close(done)
@@ -392,6 +404,17 @@ func (s *c12Sess) call(c c12Call, idx int) c12Obs {
 	if c.Op == "close" {
 		s.closed = true
 	}
+	if arm {
+		// the deadline has done its work: clear it and let the peer carry on, so that a handshake
+		// that is (wrongly) started again finds a live, willing peer
+		s.dlFired = true
+		s.T.SetDeadline(time.Time{})
+		s.steps = s.allSteps
+		if s.in.DlSteps > 0 {
+			s.steps = s.allSteps[s.in.DlSteps:]
+		}
+		s.hsRan = false
+	}
 	s.P.Absorb(0)
 	_, o.Err = c12Class(err)
 	o.N, o.Data, o.Panic = n, append([]byte{}, data...), pan
@@ -458,6 +481,8 @@ func c12PlanRes(plan string) string {
 		return "None"
 	case "wrong-finished":
 		return "(Some (XInternal, [SAlert 2 40]))"
+	case "deadline":
+		return "(Some (XInternal, []))"
 	}
 	panic("c12: plan " + plan)
 }
@@ -541,7 +566,7 @@ func c12AddCase(out *emit.Out, scenario string, in c12Input) {
 	}
 	first := in.Pos == 0
 	out.Add(emit.Case{Scenario: scenario + "/" + in.Target, Trivial: !nontrivial, Input: in, Direct: direct, Observed: obs,
-		Coq: fmt.Sprintf("ApiCase (mkPlan %d %d %s %s)\n  [%s]", len(s.steps), in.Pos, emit.Bool(first), c12PlanRes(in.Plan), strings.Join(items, ";\n   "))})
+		Coq: fmt.Sprintf("ApiCase (mkPlan %d %d %s %s)\n  [%s]", c12PlanSteps(s), in.Pos, emit.Bool(first), c12PlanRes(in.Plan), strings.Join(items, ";\n   "))})
 	if os.Getenv("C12_DEBUG") != "" {
 		b, _ := json.Marshal(in)
 		fmt.Fprintf(os.Stderr, "%s %s\n", scenario, b)
@@ -549,6 +574,13 @@ func c12AddCase(out *emit.Out, scenario string, in c12Input) {
 			fmt.Fprintf(os.Stderr, "   %-10s err=%-22s n=%-3d sent=%-20s rawclosed=%v hsdone=%v hang=%v %s\n", o.Op, o.Err, o.N, o.Sent, o.RawClosed, o.HsDone, o.Hang, o.Panic)
 		}
 	}
+}
+
+func c12PlanSteps(s *c12Sess) int {
+	if s.in.Plan == "deadline" {
+		return s.in.DlSteps
+	}
+	return len(s.steps)
 }
 
 // readable class name -> Coq term (inverse of c12Class's second result)
@@ -1114,6 +1146,23 @@ func runC12(p params) error {
 					c12AddCase(out, "cancel-at-step", c12Input{Target: target, Suite: suite, Plan: "ok", Pos: pos, Calls: []c12Call{
 						arr([]c12Ev{al(1, 90), al(2, 40), app(3)}[k%3]), {Op: "hsctx", N: k}, op("handshake"), rd(0), wr(1), op("close")}})
 				}
+			}
+		}
+	}
+	// (4b) the endpoint's read deadline expires while the peer is silent after k messages: the handshake has failed and
+	// stays failed although the deadline is cleared and the peer then carries on
+	for _, target := range targets {
+		for _, suite := range []uint16{0xe013, 0xe053, 0xe051} {
+			n := c12Steps(target, suite)
+			for k := 0; k < n; k++ {
+				if !thorough && k > 1 && k != n-1 {
+					continue
+				}
+				first := []c12Call{op("handshake"), rd(8), wr(4)}[k%3]
+				c12AddCase(out, "deadline-at-step", c12Input{Target: target, Suite: suite, Plan: "deadline", DlSteps: k, Calls: []c12Call{
+					first, op("handshake"), rd(5), wr(3), op("handshake"), op("closewrite"), op("close"), op("close")}})
+				c12AddCase(out, "deadline-at-step", c12Input{Target: target, Suite: suite, Plan: "deadline", DlSteps: k, Calls: []c12Call{
+					op("handshake"), wr(3), rd(5), op("handshake")}})
 			}
 		}
 	}
